@@ -7,7 +7,7 @@ use dashu_base::{
 use dashu_int::IBig;
 
 use crate::{
-    error::{assert_finite, assert_limited_precision},
+    error::{assert_finite, assert_limited_precision, panic_log_nonpositive},
     fbig::FBig,
     repr::{Context, Repr, Word},
     round::{Round, Rounded},
@@ -228,6 +228,16 @@ impl<R: Round> Context<R> {
 
         if (one_plus && x.is_zero()) || (!one_plus && x.is_one()) {
             return Exact(FBig::ZERO);
+        }
+
+        // the series below only converges for a positive argument: log(x) needs x > 0, log(1 + x) needs x > -1
+        let nonpositive = if one_plus {
+            x.sign() == Sign::Negative && *x <= Repr::neg_one()
+        } else {
+            x.is_zero() || x.sign() == Sign::Negative
+        };
+        if nonpositive {
+            panic_log_nonpositive()
         }
 
         // A simple algorithm:
